@@ -83,3 +83,27 @@ theorem M6_witness_exists {N : Type} (v : N → Bool) :
     ∃ mu : PObj N → Bool, (∀ n, mu (.nm n) = v n) ∧
       (∀ p q, mu (.xorpair p q) = xor (mu p) (mu q)) ∧ (∀ n, mu (.xorinv n) = !(mu (.nm n))) :=
   ⟨PObj.ext v, fun _ => rfl, fun _ _ => rfl, fun _ => rfl⟩
+
+/-! ## M8  An invariant preserved by every operation holds after every history (C07)
+
+`State` is a circuit together with the ghost set `R` of pin nodes the caller removed so far; `step s o s'` says that
+operation `o` (with its arguments, successful or rejected) can take `s` to `s'`.  The per-operation lemmas proved by
+pyvc are exactly the hypothesis `hstep` for the invariant `Inv = wired_R ∧ pins_distinct_R`. -/
+
+inductive Run {State Op : Type} (step : State → Op → State → Prop) : State → List Op → State → Prop
+  | nil (s : State) : Run step s [] s
+  | cons {s s' s'' : State} {o : Op} {os : List Op} : step s o s' → Run step s' os s'' → Run step s (o :: os) s''
+
+theorem M8_invariant_over_histories {State Op : Type} (Inv : State → Prop) (step : State → Op → State → Prop)
+    (hstep : ∀ s o s', Inv s → step s o s' → Inv s') :
+    ∀ (os : List Op) (s s' : State), Inv s → Run step s os s' → Inv s' := by
+  intro os
+  induction os with
+  | nil =>
+    intro s s' h r
+    cases r
+    exact h
+  | cons o os ih =>
+    intro s s' h r
+    cases r with
+    | cons h1 h2 => exact ih _ _ (hstep _ _ _ h h1) h2
